@@ -59,6 +59,7 @@ func ParseProgram(p *ParserZH) *syntax.Program {
 //           -> Expr
 //           -> ；
 func ParseStatement(p *ParserZH) syntax.Statement {
+	defer p.enterNesting()()
 	var validTypes = []uint8{
 		TypeStmtSep,
 		TypeDeclareW,
@@ -173,6 +174,7 @@ func ParseExpressionMAP(p *ParserZH) syntax.Expression {
 
 // parseExpressionLv1 - X 或 Y
 func parseExpressionLv1(p *ParserZH, cfg syntax.EqMarkConfig) syntax.Expression {
+	defer p.enterNesting()()
 	var parseTail func(syntax.Expression) syntax.Expression
 
 	parseTail = func(el syntax.Expression) syntax.Expression {
